@@ -349,8 +349,10 @@ class DQN(RLAlgorithm):
 
     def soft_update(self) -> None:
         """Soft updates target network."""
+        # NOTE: The target network holds its weights as plain tensors (see init_hook),
+        # so they are not found in actor_target.parameters()
         for eval_param, target_param in zip(
-            self.actor.parameters(), self.actor_target.parameters()
+            self.param_vals.values(True, True), self.target_params.values(True, True)
         ):
             target_param.data.copy_(
                 self.tau * eval_param.data + (1.0 - self.tau) * target_param.data
